@@ -48,10 +48,11 @@ Qed.
 Definition order_fits (o : ix) (d : nat) : Prop :=
   order_bad o = false /\ exists e, order_extent o = IOk e /\ e <= d.
 
-Lemma norm_ix_extent o d d' :
-  order_fits o d -> d <= d' -> norm_ix d' o = norm_ix d o.
+Lemma norm_ix_extent b o d d' :
+  order_fits o d -> d <= d' -> norm_ix b d' o = norm_ix b d o.
 Proof.
-  intros (B & e & E & Le) Ldd. destruct o as [z|l|start stop step]; cbn in *.
+  intros (B & e & E & Le) Ldd. destruct o as [z|l|start stop step]; cbn in *;
+    [|destruct b; [reflexivity|]|].
   - apply Z.ltb_ge in B. inversion E; subst.
     rewrite !norm_int_nonneg by lia. reflexivity.
   - destruct l as [|z0 l0]; [discriminate|]. inversion E; subst. clear E.
@@ -83,16 +84,30 @@ Proof.
     + reflexivity.
 Qed.
 
-Lemma norm_all_extent fs fitem : length fitem = length fs ->
+Lemma norm_all_extent b fs fitem : length fitem = length fs ->
   forall orders ext ext',
     Forall2 order_fits orders ext -> Forall2 le ext ext' ->
-    norm_all (fs ++ ext') (fitem ++ orders) = norm_all (fs ++ ext) (fitem ++ orders).
+    norm_all b (fs ++ ext') (fitem ++ orders) = norm_all b (fs ++ ext) (fitem ++ orders).
 Proof.
   revert fitem. induction fs as [|d fs IH]; intros [|i fitem] L; try discriminate.
   - cbn. clear L. intros orders ext ext' F. revert ext'.
     induction F as [|o e orders ext Ho F IHF]; intros ext' Le; inversion Le; subst; cbn; auto.
-    rewrite (norm_ix_extent Ho H1). destruct (norm_ix e o); auto. now rewrite IHF.
-  - cbn in L. intros orders ext ext' F Le. cbn. destruct (norm_ix d i); auto.
+    rewrite (norm_ix_extent b Ho H1). destruct (norm_ix b e o); auto. now rewrite IHF.
+  - cbn in L. intros orders ext ext' F Le. cbn. destruct (norm_ix b d i); auto.
+    assert (length fitem = length fs) as L' by lia.
+    rewrite (IH fitem L' orders ext ext' F Le). reflexivity.
+Qed.
+
+Lemma basic_error_extent fs fitem : length fitem = length fs ->
+  forall orders ext ext',
+    Forall2 order_fits orders ext -> Forall2 le ext ext' ->
+    basic_error (fs ++ ext') (fitem ++ orders) = basic_error (fs ++ ext) (fitem ++ orders).
+Proof.
+  revert fitem. induction fs as [|d fs IH]; intros [|i fitem] L; try discriminate.
+  - cbn. clear L. intros orders ext ext' F. revert ext'.
+    induction F as [|o e orders ext Ho F IHF]; intros ext' Le; inversion Le; subst; cbn; auto.
+    rewrite (norm_ix_extent false Ho H1). destruct o; auto; destruct (norm_ix false e _); auto.
+  - cbn in L. intros orders ext ext' F Le. cbn.
     assert (length fitem = length fs) as L' by lia.
     rewrite (IH fitem L' orders ext ext' F Le). reflexivity.
 Qed.
@@ -136,8 +151,9 @@ Proof.
   - unfold np_index. rewrite L1, L2, Nat.ltb_irrefl, Nat.sub_diag. cbn [repeat]. rewrite app_nil_r.
     pose proof (extents_fits _ B E) as Fit.
     assert (length (firstn (length fs) item) = length fs) as Lfi by (rewrite firstn_length; lia).
-    pose proof (@norm_all_extent fs (firstn (length fs) item) Lfi _ _ _ Fit Le) as NA.
-    rewrite (firstn_skipn (length fs) item) in NA. now rewrite NA.
+    pose proof (@norm_all_extent (lenient_item item) fs (firstn (length fs) item) Lfi _ _ _ Fit Le) as NA.
+    pose proof (@basic_error_extent fs (firstn (length fs) item) Lfi _ _ _ Fit Le) as BE.
+    rewrite (firstn_skipn (length fs) item) in NA, BE. now rewrite NA, BE.
   - unfold np_scalar. now rewrite L1, L2.
 Qed.
 
@@ -292,15 +308,25 @@ Section Algo.
   (* ------------------------------------------------------------------ *)
   (* 4. all-integer requests *)
 
-  Lemma norm_all_ints shape (zs : list Z) ns :
+  Lemma norm_all_ints b shape (zs : list Z) ns :
     Forall2 (fun dz n => norm_int (fst dz) (snd dz) = Some n) (combine shape zs) ns ->
     length shape = length zs ->
-    norm_all shape (map IInt zs) = IOk (map NInt ns).
+    norm_all b shape (map IInt zs) = IOk (map NInt ns).
   Proof.
     revert zs ns. induction shape as [|d sh IH]; intros [|z zs] ns F L; try discriminate.
     - inversion F. reflexivity.
     - cbn in F. inversion F as [|? n ? ns' Hn F']; subst. cbn. cbn in Hn. rewrite Hn.
       rewrite (IH zs ns'); auto.
+  Qed.
+
+  Lemma basic_error_none b shape item ns : norm_all b shape item = IOk ns -> basic_error shape item = None.
+  Proof.
+    revert item ns. induction shape as [|d sh IH]; intros [|i it] ns E; cbn [norm_all basic_error] in *; auto.
+    destruct (norm_ix b d i) eqn:N; [|discriminate].
+    destruct (norm_all b sh it) eqn:E2; [|discriminate].
+    destruct i; eauto; cbn in N |- *.
+    - destruct (norm_int d z); [eauto|discriminate].
+    - destruct step as [k|]; [destruct (Z.leb k 0); [discriminate|eauto]|eauto].
   Qed.
 
   Lemma combine_app' {A B} (a b : list A) (c d : list B) :
@@ -354,8 +380,9 @@ Section Algo.
       unfold oz.
       replace (map IInt fz ++ map (fun x => IInt (Z.of_nat x)) orders)
         with (map IInt (fz ++ map Z.of_nat orders)) by (now rewrite map_app, map_map).
-      rewrite (@norm_all_ints _ _ (fpos ++ orders)).
-      - apply np_index_n_ints.
+      assert (forall b, norm_all b (fshape hd ++ ext) (map IInt (fz ++ map Z.of_nat orders))
+              = IOk (map NInt (fpos ++ orders))) as NA; [intros b|rewrite (basic_error_none _ _ _ (NA false)), NA; apply np_index_n_ints].
+      apply norm_all_ints.
       - rewrite combine_app' by (now rewrite Lf).
         apply Forall2_app; auto.
         unfold ext. clear. induction orders as [|n r IH]; cbn; constructor; auto. cbn.
